@@ -1,6 +1,6 @@
 SPECIFICATION Spec
 CONSTANTS
- Fam = "powT"
+ Fams = {"sqp", "sqn"}
  P <- PQuick
 INVARIANTS Theorems Emit
 CHECK_DEADLOCK FALSE
